@@ -36,8 +36,9 @@ Definition bremove_internal (s : bstate) (id : Z) : bstate :=
 Definition badd (s : bstate) (id : Z) (toks : list Z) : bstate :=
   let s := bremove_internal s id in
   let total := b_total s + Z.of_nat (length toks) in
+  (* a re-added id is live again (fix: commit "re-adding a removed id") *)
   {| b_docs := b_docs s ++ [(id, toks)]; b_num := b_num s + 1; b_total := total;
-     b_avg := avg_of total (b_num s + 1); b_deleted := b_deleted s |}.
+     b_avg := avg_of total (b_num s + 1); b_deleted := filter (fun x => negb (x =? id)) (b_deleted s) |}.
 
 Definition bremove (s : bstate) (id : Z) : bstate :=
   match doc_tokens s id with
